@@ -8,7 +8,9 @@ N = {'quick': 4000, 'thorough': 60000}
 SEARCH_N = {'quick': 3000, 'thorough': 20000}
 CASE_TIMEOUT = 20.0
 RULE = ('in-memory PseudoNetCDFFile with one coordinate (2..7 values; ascending/descending; uniform, power-of-two and arbitrary '
-        'integer spacing times 2^ue; dtype f8/f4/i4) and none / 1-D (n+1) / n x 2 bounds variable (found through <dim>_bounds, '
+        'integer spacing times 2^ue; coordinate dtype float64 / float32 / int32 / int64 with exactly representable values: integer coordinates '
+        'are whole numbers queried at fractions, float32 coordinates are queried with float64 values one unit (< float32 rounding) beside every '
+        'coordinate and edge) and none / 1-D (n+1) / n x 2 bounds variable (found through <dim>_bounds, '
         '<dim>_bnds or the bounds attribute); every method x bounds x clean x left/right(None|nan); query values at centres, edges, '
         'midpoints, one unit inside/outside every edge, outside the domain (1-D, 2-D and scalar val); the same through time2idx with '
         'datetimes that are naive, UTC-aware or timezone-aware with non-zero offsets (-05:00, +05:30, -09:30, +13:00, ...: the true instant '
@@ -124,14 +126,31 @@ def gen(rng, n, tier):
         clean = rng.choice(['mask', 'mask', 'none'])
         left = rng.choice(['none', 'none', 'nan'])
         right = left if rng.random() < 0.7 else rng.choice(['none', 'nan'])
-        dtype = rng.choice(['f8', 'f8', 'f4', 'i4'])
-        ue = rng.randint(0, 3) if dtype == 'i4' else rng.randint(-20, 10)
+        dtype = rng.choice(['f8', 'f8', 'f4', 'f4', 'i4', 'i8'])
+        # integer coordinates hold whole numbers while queries are fractional (finer unit); float32 coordinates have few
+        # significant bits while float64 queries one unit beside them lie within float32 rounding of the coordinate / edge
+        mult = 1
+        if dtype in ('i4', 'i8'):
+            k = rng.randint(1, 6)
+            ue, mult = -k, 2 ** k
+        elif dtype == 'f4' and rng.random() < 0.7:
+            k = rng.randint(16, 20)
+            ue, mult = rng.randint(-34, -20), 2 ** k
+        else:
+            ue = rng.randint(-20, 10)
         front = 'val2idx'
         tunit = None
         if rng.random() < 0.2:
-            front, dtype = 'time2idx', 'f8'
+            front = 'time2idx'
             tunit = rng.choice(sorted(TUNITS))
-            ue = rng.randint(-2, 2) if tunit != 'seconds' else rng.randint(0, 6)
+            if dtype in ('i4', 'i8'):
+                pass                    # integer time variable, queries at fractions of the unit (whole microseconds)
+            else:
+                dtype, mult = 'f8', 1
+                ue = rng.randint(-2, 2) if tunit != 'seconds' else rng.randint(0, 6)
+        if mult > 1:
+            cs = [c * mult for c in cs]
+            es = [e * mult for e in es]
         nob = (rep == 'none')
         xs = _queries(rng, cs, es, method, nob, tier)
         if tier == 'search':
@@ -157,7 +176,7 @@ def gen(rng, n, tier):
             elif tzkind == 'offset':
                 tzmin = [rng.choice(TZ_OFFSETS) for _ in xs]
             tztag = '-t' + tzkind
-        case = dict(kind='%s-%s-%s-%s%s' % (direction, rep, method, style, tztag),
+        case = dict(kind='%s-%s-%s-%s-%s%s' % (direction, rep, method, style, dtype, tztag),
                     ue=ue, cs=cs, dtype=dtype, rep=rep, es=(es if rep != 'none' else None), bkey=bkey, method=method,
                     bounds=bounds, clean=clean, left=left, right=right, xs=xs, vshape=vshape, front=front, tunit=tunit,
                     tzmin=tzmin)
@@ -617,6 +636,10 @@ def translate():
                             ("method == 'nearest'", 'rint vs trunc'), ("bounds != 'ignore'", 'warn/raise only when requested')]:
                 ob('val2idx: `if %s` (%s)' % (t, what), t in ifs)
             ob('val2idx: no bare `dimevals[::-1]` expression statement (the no-op of the descending defect)', 'dimevals[::-1]' not in sts)
+            vas = [x for x in sts if x.startswith('val =') or x.startswith('val[') or x.split(' ')[0] == 'val']
+            ob('val2idx: the query values are taken as given — `val = np.asarray(val)` is the only statement that (re)binds or updates val '
+               '(no re-typing to the coordinate dtype between the 1-D check and the lookup)', vas == ['val = np.asarray(val)'],
+               'val is re-bound / updated: %r' % vas)
         path = os.path.join(C.SRC, 'PseudoNetCDF', 'core', '_files.py')
         src = open(path).read()
         ob('date2num: aware datetimes are converted with `t.astimezone(utc).replace(tzinfo=None)`', 't.astimezone(utc).replace(tzinfo=None) for t in time[:]' in src)
